@@ -9,6 +9,7 @@ import (
 	"math"
 	"os"
 	"path/filepath"
+	"syscall"
 
 	"github.com/spf13/afero"
 
@@ -462,8 +463,14 @@ func (h *Handler) HandleGetDirSize(ctx *Context, path string) (int64, error) {
 
 	var size int64
 	// detach afero.Lstater interface to resolve symlinks in afero.Walk.
-	_ = afero.Walk(&fsOnly{h.Fs}, path, func(path string, info fs.FileInfo, err error) error {
+	err = afero.Walk(&fsOnly{h.Fs}, path, func(path string, info fs.FileInfo, err error) error {
 		if err != nil {
+			// entry which can't be examined at all (broken symbolic link, too long path) has nothing to add,
+			// but any other error means that total size is unknown: it must not be reported as smaller one
+			if !errors.Is(err, fs.ErrNotExist) && !errors.Is(err, syscall.ENAMETOOLONG) {
+				return err
+			}
+
 			log.WarnContext(ctx, "Skipping path because of error",
 				slog.String("path", path), logutil.ErrorAttr(err))
 			return nil
@@ -476,6 +483,11 @@ func (h *Handler) HandleGetDirSize(ctx *Context, path string) (int64, error) {
 		size += info.Size()
 		return nil
 	})
+
+	if err != nil {
+		log.WarnContext(ctx, "Get directory size failed", logutil.ErrorAttr(err))
+		return 0, err
+	}
 
 	log.DebugContext(ctx, "Directory size calculated", slog.Int64("size", size))
 
